@@ -83,6 +83,13 @@ def build(eng, seq):
     data = []
     items = []
     for i, k in enumerate(seq):
+        if k == 'S':
+            # the same header and payload as the previous frame (a re-broadcast), with its own three checksum bytes
+            prev = [it for it in items if it.frame][-1]
+            e, isf, pl = list(prev.elems[:-3]) + sym.symbytes(f"c{i}_", 3).e, True, prev.payload_len
+            items.append(Item(k, e, len(data), isf, pl))
+            data += e
+            continue
         e, isf, pl = make_item(eng, k, i)
         items.append(Item(k, e, len(data), isf, pl))
         data += e
